@@ -156,26 +156,31 @@ def linspace_exact(a, b, n):
 MSG = {1: "Pulse was not valid", 2: "Parametrization was not valid", 3: "Pulse and parametrization are incompatible. "}
 
 
-def exact_reference(f, F, checks, eps, n):
+def exact_reference(f, F, checks, eps, n, tol=0):
     """the validation of Pulse.__init__ re-implemented over Fractions with the exact integral: a second, independent
     implementation used (a) to measure the decision margin of a case, (b) as a cross-check of the Lean model.
-    Returns (verdict, margin): margin = how far the decisive comparisons are from flipping.  A comparison that is an exact
-    tie counts as robust only if it is a point-value comparison that is an exact tie in float arithmetic as well."""
+    Returns (verdict, margin).  margin = how far the decisive *quadrature-based* comparisons are from flipping (absolute;
+    compared by the caller with the measured error of scipy's quad on this waveform).  A *point-value* comparison is robust
+    (contributes no constraint) if evaluating it in float arithmetic, as the code does, reproduces the exact slack to 1 %
+    (an exact tie: if it is an exact tie in floats as well); otherwise the case is marked fragile (margin 0)."""
     if not checks:
         return {"ok": None}, math.inf
-    eps = Fraction(eps)
-    fe = float(eps)
+    eps, tol = Fraction(eps), Fraction(tol)
+    fe, ft = float(eps), float(tol)
     groups = [
         [(eps - abs(f.integral(0, 1) - 1), True, None)] +
         [(f.exact(x), False, (lambda x=x: f(float(x)))) for x in linspace_exact(0, 1, n)],
         [(eps - abs(F.exact(0)), True, lambda: fe - abs(F(0) - 0)), (eps - abs(F.exact(1) - 1), True, lambda: fe - abs(F(1) - 1))] +
-        [(F.exact(x + eps) - F.exact(x), False, (lambda x=x: F(float(x) + fe) - F(float(x)))) for x in linspace_exact(0, 1 - eps, n)],
+        [(F.exact(x + eps) - (F.exact(x) - tol), False, (lambda x=x: F(float(x) + fe) - (F(float(x)) - ft))) for x in linspace_exact(0, 1 - eps, n)],
         [(eps - abs(f.integral(0, x) - F.exact(x)), False, None) for x in linspace_exact(eps, 1 - eps, n)]]
 
     def dist(s, fl):
-        if s != 0:
+        if fl is None:
             return float(abs(s))
-        return math.inf if fl is not None and fl() == 0.0 else 0.0
+        v = fl()
+        if s == 0:
+            return math.inf if v == 0.0 else 0.0
+        return math.inf if abs(Fraction(float(v)) - s) <= abs(s) / 100 else 0.0
     margin = math.inf
     for g in range(3):
         ok = [(s > 0 if strict else s >= 0) for s, strict, _ in groups[g]]
@@ -256,7 +261,10 @@ def validator_cases(ctx):
     add("valid/ramp 2x,x^2", "valid", "accept", poly(0, 2), poly(0, 0, 1))
     add("valid/3x^2,x^3", "valid", "accept", poly(0, 0, 3), poly(0, 0, 0, 1))
     add("valid/6x(1-x)", "valid", "accept", poly(0, 6, -6), poly(0, 0, 3, -2))
-    add("valid/shifted box", "valid", "accept", PW(["1/4", "3/4"], [[0], [2], [0]]), PW(["1/4", "3/4"], [[0], ["-1/2", 2], [1]]))
+    shifted = tent("1/2", "1/4", 4)                     # continuous, supported on [1/4, 3/4]: F is constant on both sides
+    add("valid/shifted tent", "valid", "accept", shifted, shifted.antiderivative())
+    add("valid/shifted box (discontinuous)", "valid", "accept", PW(["1/4", "3/4"], [[0], [2], [0]]), PW(["1/4", "3/4"], [[0], ["-1/2", 2], [1]]),
+        eps=Fraction(1, 1000))
     add("invalid/unnormalised 2,2x", "unnormalised", "reject", poly(2), poly(0, 2))
     add("invalid/unnormalised 2,x", "unnormalised", "reject", poly(2), ident)
     add("invalid/F not from 0: x+1/2", "end points", "reject", one, poly("1/2", 1))
@@ -276,11 +284,10 @@ def validator_cases(ctx):
     add("boundary/F(1) = 1 + eps exactly (strict <)", "boundary", "reject", one, poly(0, 1 + e2), eps=e2)
     add("boundary/F(1) = 1 - eps exactly (strict <)", "boundary", "reject", one, poly(0, 1 - e2), eps=e2)
     add("boundary/f = 0 at a grid point (>= 0)", "boundary", "accept", poly(0, 2), poly(0, 0, 1), eps=e2)
-    add("boundary/F constant over eps-steps (>=)", "boundary", "accept", PW(["1/4", "3/4"], [[0], [2], [0]]),
-        PW(["1/4", "3/4"], [[0], ["-1/2", 2], [1]]), eps=e2)
+    add("boundary/F constant over eps-steps (>=)", "boundary", "accept", shifted, shifted.antiderivative(), eps=e2)
     # the sampling blind spot (the literal rejection claim is false; cf. QG.C13.literal_rejection_claim_false)
     add("blind-spot/F off by 2/5 between grid points", "blind spot", None, one, ident.combine(tent("1/2", "1/100", "2/5")))
-    neg = one.combine(tent("1/2", "1/50", -3)).combine(tent("7/10", "1/50", 3))
+    neg = one.combine(tent("1/2", "1/20", -3)).combine(tent("13/18", "1/20", 3))      # negative on (0.467, 0.533), between 4/9 and 5/9
     add("blind-spot/f negative between grid points", "blind spot", None, neg, neg.antiderivative())
 
     # ---- generated families
@@ -325,7 +332,7 @@ def validator_cases(ctx):
                 g = linspace_exact(0, 1, n)
                 xk = g[rng.randrange(0, n)]
                 depth = f.exact(xk) + rng.choice([Fraction(1, 100), 1, 5])
-                w = Fraction(1, 60)
+                w = Fraction(1, 30)
                 dip = tent(xk, w, -depth)
                 comp_at = xk + Fraction(1, 20) if xk < Fraction(1, 2) else xk - Fraction(1, 20)
                 f2 = f.combine(dip)
@@ -342,6 +349,46 @@ def validator_cases(ctx):
                 add(f"valid/{kind} [checks off]", "valid", "accept", f, F, checks=False, eps=eps, n=n)
                 add(f"invalid/{kind}: unnormalised, F unrelated [checks off]", "unnormalised", "accept", f.scaled(3), poly(0, 0, 1), checks=False, eps=eps, n=n)
     return out
+
+
+def smooth_pairs():
+    """exactly valid *smooth* waveform/parametrisation pairs written as a user would write them (closed forms in float
+    arithmetic).  C13: constructing them with validation enabled must succeed."""
+    pi, sin, cos = math.pi, math.sin, math.cos
+    return {
+        "constant": (lambda x: 1.0, lambda x: x),
+        "ramp": (lambda x: 2 * x, lambda x: x * x),
+        "falling ramp": (lambda x: 2 - 2 * x, lambda x: 2 * x - x * x),
+        "parabola 6x(1-x)": (lambda x: 6 * x * (1 - x), lambda x: 3 * x ** 2 - 2 * x ** 3),
+        "3(1-x)^2": (lambda x: 3 * (1 - x) ** 2, lambda x: 1 - (1 - x) ** 3),
+        "smoothstep 30x^2(1-x)^2 (factored)": (lambda x: 30 * x ** 2 * (1 - x) ** 2, lambda x: x ** 3 * (10 - 15 * x + 6 * x ** 2)),
+        "smoothstep 30x^2(1-x)^2 (expanded)": (lambda x: 30 * x ** 2 - 60 * x ** 3 + 30 * x ** 4, lambda x: 10 * x ** 3 - 15 * x ** 4 + 6 * x ** 5),
+        "smootherstep 140x^3(1-x)^3": (lambda x: 140 * x ** 3 * (1 - x) ** 3, lambda x: 35 * x ** 4 - 84 * x ** 5 + 70 * x ** 6 - 20 * x ** 7),
+        "Hann window 2sin^2(pi x)": (lambda x: 2 * sin(pi * x) ** 2, lambda x: x - sin(2 * pi * x) / (2 * pi)),
+        "Hann window 1-cos(2 pi x)": (lambda x: 1 - cos(2 * pi * x), lambda x: x - sin(2 * pi * x) / (2 * pi)),
+        "half sine": (lambda x: pi / 2 * sin(pi * x), lambda x: (1 - cos(pi * x)) / 2),
+        "exponential": (lambda x: math.exp(x) / (math.e - 1), lambda x: (math.exp(x) - 1) / (math.e - 1)),
+        "4(1-x)^3": (lambda x: 4 * (1 - x) ** 3, lambda x: 1 - (1 - x) ** 4),
+        "cosine bell shifted": (lambda x: 1 + cos(2 * pi * x) * 0.5, lambda x: x + sin(2 * pi * x) / (4 * pi)),
+    }
+
+
+def run_smooth_pair(name):
+    from quantum_gates._gates.pulse import Pulse
+    f, F = smooth_pairs()[name]
+    try:
+        Pulse(pulse=f, parametrization=F, perform_checks=True)
+        return {"ok": None}
+    except Exception as e:                                  # noqa
+        return {"err": type(e).__name__, "msg": str(e)}
+
+
+def rounding_signature(r):
+    """an exactly valid smooth pair rejected by the sampled monotonicity test, which compares F(x+eps) >= F(x) without any
+    slack: where the true increase over the step is below the rounding error of F the outcome is decided by rounding (D17)"""
+    if r.get("err") == "AssertionError" and r.get("msg") == MSG[2]:
+        return {"kind": "float-rounding", "check": "_parametrization_is_valid"}
+    return None
 
 
 def run_impl_pulse(c):
@@ -699,6 +746,7 @@ def main(ctx):
         broken.append(f"Lean obligations fail: {dict(list(lean.failed.items())[:4])}")
     eps_src = Fraction(ir["constants"]["epsilon"]) if ir else Fraction(1, 10 ** 6)
     n_src = int(ir["constants"]["check_n_points"]) if ir else 10
+    tol_src = Fraction(ir["constants"]["mono_tol"]) if ir else Fraction(0)
 
     # ---- 2. translation validation
     if ir is not None:
@@ -718,35 +766,53 @@ def main(ctx):
             c["eps"], c["n"] = eps_src, n_src
     reqs, impl, vfails, skipped, hist, quad_worst = [], [], [], 0, {}, 0.0
     kept = []
+    def mono_tol(c):                                        # the slack the source uses, expressed for this case's eps
+        return Fraction(0) if tol_src == 0 else (tol_src if c["eps"] == eps_src else c["eps"] ** 2 if tol_src == eps_src ** 2 else tol_src)
     for c in vcases:
-        ref, margin = exact_reference(c["f"], c["F"], c["checks"], c["eps"], c["n"])
+        c["tol"] = mono_tol(c)
+        ref, margin = exact_reference(c["f"], c["F"], c["checks"], c["eps"], c["n"], c["tol"])
         qd = quad_discrepancy(c) if c["checks"] else 0.0
         jump_near = False
         if c["checks"]:                                     # a discontinuity within 1e-9 of a sampled point: float and exact grids may fall on different sides
             pts = linspace_exact(0, 1, c["n"]) + linspace_exact(c["eps"], 1 - c["eps"], c["n"]) + \
                 [x + d for x in linspace_exact(0, 1 - c["eps"], c["n"]) for d in (0, c["eps"])] + [Fraction(0), Fraction(1)]
             jump_near = any(abs(j - x) < Fraction(1, 10 ** 9) for fn in (c["f"], c["F"]) for j in fn.jumps() for x in pts)
-        if c["checks"] and (margin < max(1e-12, 20 * qd) or jump_near):
-            skipped += 1                                    # decision too close to a threshold for a float/quad comparison to be meaningful
-            continue
-        quad_worst = max(quad_worst, qd)
         r = run_impl_pulse(c)
         ctx.count()
         c["impl"], c["ref"], c["margin"] = r, ref, margin
+        if c["checks"] and (margin < max(1e-13, 20 * qd) or jump_near):
+            # decision too close to a threshold for an exact-vs-float comparison to be meaningful: no correspondence, and no oracle
+            # demand either — except that an exactly valid *smooth* pair (one polynomial piece) must be accepted whatever the margin
+            skipped += 1
+            if c["group"] == "valid" and not c["f"].breaks and not c["F"].breaks and "ok" not in r:
+                vfails.append((c, f"an exactly valid smooth pair is rejected ({r})", rounding_signature(r)))
+            continue
+        quad_worst = max(quad_worst, qd)
         kept.append(c)
         impl.append(r)
-        reqs.append({"op": "pulse_init", "checks": c["checks"], "eps": fs(c["eps"]), "n": c["n"], "f": c["f"].json(), "F": c["F"].json()})
+        reqs.append({"op": "pulse_init", "checks": c["checks"], "eps": fs(c["eps"]), "mono_tol": fs(c["tol"]), "n": c["n"],
+                     "f": c["f"].json(), "F": c["F"].json()})
         fam = c["group"]
         out = "accepted" if "ok" in r else r["err"] + ": " + r.get("msg", "")[:32]
         hist.setdefault(fam, {}).setdefault(out, 0)
         hist[fam][out] += 1
         want = c["expected"]
         if want == "accept" and "ok" not in r:
-            vfails.append((c, f"a pair the property requires to be accepted is rejected ({r})"))
+            vfails.append((c, f"a pair the property requires to be accepted is rejected ({r})", None))
         elif want == "reject" and "ok" in r:
-            vfails.append((c, "a pair the property requires to be rejected is accepted"))
+            vfails.append((c, "a pair the property requires to be rejected is accepted", None))
         elif want == "reject" and r.get("err") != "AssertionError":
-            vfails.append((c, f"rejected with {r.get('err')} instead of the validation's AssertionError"))
+            vfails.append((c, f"rejected with {r.get('err')} instead of the validation's AssertionError", None))
+    # exactly valid smooth pairs in closed form, as a user writes them (real code only; by `exactly_valid_pair_passes` the model accepts)
+    smooth_hist = {}
+    for name in smooth_pairs():
+        r = run_smooth_pair(name)
+        ctx.count()
+        smooth_hist[name] = "accepted" if "ok" in r else f"{r['err']}: {r.get('msg')}"
+        if "ok" not in r:
+            vfails.append(({"family": "smooth/" + name, "smooth": name, "expected": "accept"},
+                           f"an exactly valid smooth pair is rejected ({r})", rounding_signature(r)))
+    cov["smooth_closed_form_pairs"] = smooth_hist
     # grids of the model against np.linspace, and the driver's exact evaluator against the harness's
     lin_req = [{"op": "linspace", "a": fs(a), "b": fs(b), "n": n} for n in (0, 1, 2, 3, 10, 17) for a, b in
                ((0, 1), (0, 1 - eps_src), (eps_src, 1 - eps_src))]
@@ -871,7 +937,8 @@ def main(ctx):
     cov["gaussian_cases"] = len(gcases)
     if ir is not None:
         cov["source_facts"] = {"type_checked": ir["gaussian"]["type_checked"], "valid_types": ir["gaussian"]["valid_types"],
-                               "epsilon": fs(eps_src), "check_n_points": n_src, "methods": ir["gaussian"]["methods"]}
+                               "epsilon": fs(eps_src), "check_n_points": n_src, "monotonicity_slack": fs(tol_src),
+                               "methods": ir["gaussian"]["methods"]}
     cov["outside_the_proof"] = ["pickling of pulses / gate sets / integrators / factories: harness test only (Python's pickle protocol is not modelled)",
                                 "floating point: cancellation of cdf(1) - cdf(0) (D16) and every other rounding effect; the 50-digit comparison is a test",
                                 "scipy.integrate.quad inside the validators: a parameter of the model (measured against exact integrals on every case)"]
@@ -892,7 +959,8 @@ def main(ctx):
     ctx.assumptions += ["scale > 0; exact real arithmetic in every theorem (floats: tested, tolerance 1e-9 relative for the waveform, 1e-9 absolute for "
                         "the parametrisation and the integral; oracle domain: weight on [0,1] >= 1e-292, i.e. a normal double)",
                         "validator theorems: quad returns the integral; tolerance 0 < eps <= 1/2 for `exactly_valid_pair_passes`",
-                        "correspondence cases keep every decisive comparison at least max(1e-12, 20 x measured quad error) away from its threshold"]
+                        "correspondence cases keep every decisive quadrature-based comparison at least max(1e-13, 20 x measured quad error) away from "
+                        "its threshold and every decisive point-value comparison reproducible in float arithmetic to 1 % of its slack (others are skipped and counted)"]
     if kept:
         c = kept[min(11, len(kept) - 1)]
         ctx.sample({"validator_case": c["family"], "f": c["f"].json(), "F": c["F"].json(), "impl": c["impl"], "margin": c["margin"]})
@@ -913,12 +981,17 @@ def main(ctx):
         unexplained += 1
         ctx.violation(sig, {"kind": "gaussian", "loc": info["loc"], "scale": info["scale"], "xs": xs, "ref": ref, "failure": what},
                       f"GaussianPulse(loc={info['loc']}, scale={info['scale']}): {what}")
-    for c, what in vfails[:3]:
+    rounding = [v for v in vfails if v[2] is not None]
+    if rounding:
+        c, what, sig = rounding[0]
+        ctx.violation(sig, validator_replay(c, what, [v[0]["family"] for v in rounding[1:30]]),
+                      f"Pulse(f, F, perform_checks=True) on '{c['family']}': {what} [the sampled monotonicity test compares "
+                      f"F(x+eps) >= F(x) without slack; the true increase over the last step is below the rounding error of F, so rounding "
+                      f"decides; {len(rounding)} pair(s) of this class; outside the theorems, which are about real numbers — defect D17]")
+    for c, what, sig in [v for v in vfails if v[2] is None][:3]:
         unexplained += 1
-        ctx.violation({"kind": "oracle", "part": "validator", "family": c["family"]},
-                      {"kind": "validator", "family": c["family"], "expected": c["expected"], "f": c["f"].json(), "F": c["F"].json(),
-                       "checks": c["checks"], "eps": fs(c["eps"]), "n": c["n"], "failure": what},
-                      f"Pulse(f, F, perform_checks={c['checks']}) on family '{c['family']}': {what}")
+        ctx.violation({"kind": "oracle", "part": "validator", "family": c["family"]}, validator_replay(c, what),
+                      f"Pulse(f, F, perform_checks={c.get('checks', True)}) on family '{c['family']}': {what}")
     for name, bad in pfails[:3]:
         unexplained += 1
         ctx.violation({"kind": "oracle", "part": "pickle", "object": name}, {"kind": "pickle", "object": name, "failure": bad},
@@ -934,6 +1007,13 @@ def main(ctx):
     elif broken:
         cov["broken_ties"] = broken
         print(f"[{ctx.pid}] additionally broken (explained by the oracle failure above): {broken[0][:200]}")
+
+
+def validator_replay(c, what, same_class=()):
+    if "smooth" in c:
+        return {"kind": "smooth-pair", "name": c["smooth"], "expected": "accept", "failure": what, "same_class": list(same_class)}
+    return {"kind": "validator", "family": c["family"], "expected": c["expected"], "f": c["f"].json(), "F": c["F"].json(),
+            "checks": c["checks"], "eps": fs(c["eps"]), "n": c["n"], "failure": what, "same_class": list(same_class)}
 
 
 # =========================================================================================== replay
@@ -957,6 +1037,11 @@ def replay(ctx, path):
         ok = ("ok" in r) == (rp["expected"] == "accept") and (rp["expected"] == "accept" or r.get("err") == "AssertionError")
         print(f"family {rp['family']}: implementation {r}; the property demands: {rp['expected']}; oracle:", "holds" if ok else "fails")
         return 0 if ok else 1
+    if kind == "smooth-pair":
+        r = run_smooth_pair(rp["name"])
+        print(f"Pulse(f, F, perform_checks=True) for the exactly valid smooth pair '{rp['name']}': implementation {r}; the property "
+              f"demands: accept; oracle:", "holds" if "ok" in r else "fails")
+        return 0 if "ok" in r else 1
     if kind == "pickle":
         body = json.load(open(path))
         for name, obj in pickle_objects(body.get("seed", 0), body.get("tier") == "thorough"):
